@@ -236,6 +236,22 @@ PROPS = {
         "real_vs_stub": REAL + "; real: pkg/proxy pipeline; stubs: embedder (prompt -> vector table), upstream LLM (RoundTripper), HTTP transport (ServeHTTP + recorder); RAG injection disabled",
         "assumptions": ["thresholds are distances (smaller = more similar), as documented in proxy.yaml / config_loader.go", "asynchronous cache saves are settled by quiescence before the next request"],
     },
+    "C18": {
+        "level": "exploration", "quick": 600, "thorough": 40000, "batch": 10,
+        "rule": ("STORAGE HALF (simulation): the real mmap.VectorArena + AsyncCompactor driven directly with 8 MB slots (7 per 64 MB chunk, ids 1-30 span "
+                 "5 chunks; only the first/last 16 bytes of a slot are touched so chunk files stay sparse). Three tasks under the cooperative lock scheduler: "
+                 "a mutator (alloc+write / free / verify / GetState+Close+reopen+LoadState), a reader (through GetBytes and through the node pointer handed "
+                 "to the NodePointerUpdater, under the node lock) and a compactor task calling RunCycle (threshold 1%). Mutations and cycles exclude each other "
+                 "(the property quantifies over sequences), readers interleave with everything at every lock operation. Oracle = shadow map id -> unique pattern: "
+                 "every live id reads back its own pattern through GetBytes and through its node pointer, no two live ids share a physical slot, no live slot "
+                 "is on the free list - after every verify, after compaction cycles, after reopen, at the end; a concurrent reader sees its own bytes (judged "
+                 "through GetBytes only when no relocation/mutation happened between call and comparison). NUMERIC HALF (input generation, counted separately "
+                 "as numeric_cases_input_generation, not simulation): 60 generated vector pairs per run, dims 0..100 incl. non-multiples of 8, denormals, -0, "
+                 "1e4 magnitudes: every kernel vs a float64 reference loop, symmetry, non-negativity, self-distance 0, length mismatch -> error, float16 and "
+                 "int8 round-trip step bounds, int8 clipping. Non-trivial: mutator program >= 10 ops; distinct = program+schedule hash."),
+        "real_vs_stub": "real: pkg/storage/mmap arena + compactor (sync rewritten to verifsync, file calls to verifos, real mmap of real sparse files), pkg/core/distance kernels and quantizer; stub: NodePointerUpdater (a map of aliasing slices standing for hnsw nodes); the hnsw index itself is not in this check (its use of the arena is exercised by C01/C02/C07)",
+        "assumptions": ["callers do not mutate the arena concurrently with a compaction cycle (property text: sequences of operations, with readers concurrent)", "a slice returned by GetBytes is judged only while no relocation or mutation intervened (it aliases the mapping by design)"],
+    },
 }
 
 
@@ -245,6 +261,12 @@ NOT_APPLICABLE["C20"] = ("pure functions of their input (text analysis, chunking
                          "no schedule, fault or interleaving for a simulator to decide; property-based testing territory, see DESIGN.md section 7")
 
 MANIFEST_TEXT = {
+    "C18": {
+        "text": "The arena half is a schedule-dependent aliasing property: a shadow map of unique byte patterns is compared with the real memory-mapped arena while a reader task interleaves, at every lock operation, with a compactor task relocating slots and a mutator reusing them, including state save / close / reopen / load. The numeric half (kernels, quantiser, float16) has no schedule in it and is plain input generation, reported under its own counter.",
+        "design_ref": "DESIGN.md section 6 C18",
+        "note": "Only the storage half is simulation; the numeric half is honest input generation run in the same command. Engine-level VGet-after-VCompress fidelity is decided by C01/C02 tolerance classes, not here.",
+        "technique": "deterministic simulation: cooperative lock scheduler over real mmap arena + compactor with shadow-map aliasing oracle and reopen injection; numeric clauses by seeded input generation (labelled)",
+    },
     "C17": {
         "text": "Seeded exploration of request sequences through the real gateway pipeline with exact, harness-known embedding distances, a counting upstream stub and the simulated clock for TTL expiry; a reference admission/cache model decides block / hit / forward for every request and which entries an invalidation must remove.",
         "design_ref": "DESIGN.md section 6 C17",
